@@ -48,7 +48,7 @@ FLOORS["thorough"] = dict(FLOORS["quick"])
 BAD = {
     "none": lambda: None, "str": lambda: "ab", "int": lambda: 7, "float": lambda: 1.5,
     "bytearray": lambda: bytearray(b"ab"), "memoryview": lambda: memoryview(b"ab"),
-    "list": lambda: [1, 2], "tuple": lambda: (1,),
+    "list": lambda: [1, 2], "tuple": lambda: (1,), "tuple2": lambda: (1, 2), "tuple0": lambda: (),
 }
 BAD_KINDS = sorted(BAD)
 
@@ -354,10 +354,12 @@ def run_static(case, ctx):
             ctx.evaluated(2)
             ctx.shape(("static", "key_size", ks))
     elif what == "ref_count_nonpruning":
-        r = cut(HexaryTrie, {}, prune=False, ref_count={}, expect=(Exception,))
-        judge(r, ValueError, "HexaryTrie(prune=False, ref_count={})")
-        ctx.count("bad_calls")
-        ctx.evaluated()
+        for flag in (False, 0, None, "", 0.0):
+            # every falsy prune flag makes a non-pruning trie: a reference count is refused
+            r = cut(HexaryTrie, {}, prune=flag, ref_count={}, expect=(Exception,))
+            judge(r, ValueError, "HexaryTrie(prune=%r, ref_count={})" % (flag,))
+            ctx.count("bad_calls")
+            ctx.evaluated()
         ctx.shape(("static", "ref_count"))
     elif what == "snapshot_pruning":
         db = {}
